@@ -67,6 +67,8 @@ def ref_sign(priv, token):
 
 def c17_params(budget):
     nkeys = 1 if budget == 'quick' else 3
+    for user, host in (('alice', 'devbox'), ('', 'devbox'), ('root', ''), (None, 'buildhost')):
+        yield {'what': 'comment', 'user': user, 'host': host}
     for k in range(nkeys):
         yield {'what': 'blob', 'key': k}
         yield {'what': 'sign', 'key': k, 'tokens': 'fixed', 'n': 0}
@@ -79,6 +81,29 @@ def c17_run(p):
     out = []
     if p['what'] == 'cleanup':
         c17_cleanup()
+        return out
+    if p['what'] == 'comment':
+        kg = mod('auth.keygen')
+        real_login, real_host = kg.os.getlogin, kg.socket.gethostname
+
+        def login():
+            if p['user'] is None:
+                raise OSError('no controlling terminal')
+            return p['user']
+        d = tempfile.mkdtemp(prefix='c17cmt_')
+        try:
+            kg.os.getlogin = login
+            kg.socket.gethostname = lambda: p['host']
+            path = os.path.join(d, 'adbkey')
+            kg.keygen(path)
+            with open(path + '.pub', 'rb') as f:
+                line = f.read()
+        finally:
+            kg.os.getlogin, kg.socket.gethostname = real_login, real_host
+            shutil.rmtree(d, ignore_errors=True)
+        want = b' ' + (p['user'] or 'unknown').encode() + b'@' + (p['host'] or 'unknown').encode()
+        if not line.rstrip(b'\n').endswith(want) or line.count(b' ') != 1:
+            out.append(fail(p, "the blob must be followed by the ' user@host' comment", want, line[-40:]))
         return out
     _, path = c17_key(p['key'])
     priv = ref_private(path)
@@ -253,6 +278,9 @@ def c18_params(budget):
         for size in ((1 << 20), (3 << 20)) if budget != 'quick' else ((1 << 20),):
             yield {'what': 'bigwrite', 'kind': kind, 'size': size}
         yield {'what': 'reconnect', 'kind': kind}
+        yield {'what': 'blocking-read', 'kind': kind, 'connect_t': 1.0}
+        yield {'what': 'blocking-read', 'kind': kind, 'connect_t': None}
+        yield {'what': 'peer-abort', 'kind': kind}
         yield {'what': 'session', 'kind': kind}
 
 
@@ -417,6 +445,59 @@ def c18_run(p):
         return out
     if p['what'] == 'session':
         return c18_session(p)
+    if p['what'] == 'blocking-read':
+        data = b'late but complete'
+
+        def script(conn, peer):
+            real_time.sleep(0.3)
+            conn.sendall(data)
+            peer.event('done').wait(5)
+        peer = Peer(script)
+        c = TcpClient(p['kind'], peer.port)
+        try:
+            c.call('connect', p['connect_t'])
+            r = outcome(lambda: c.call('bulk_read', 100, None))
+            if r != ('ok', data):
+                out.append(fail(p, 'a read without a timeout must wait for the bytes of a pausing peer', data, r))
+        finally:
+            peer.event('done').set()
+            c.finish()
+            peer.close()
+        return out
+    if p['what'] == 'peer-abort':
+        import struct as _st
+
+        def script(conn, peer):
+            conn.recv(10)
+            conn.setsockopt(socket.SOL_SOCKET, socket.SO_LINGER, _st.pack('ii', 1, 0))     # close with RST
+        peer = Peer(script)
+        c = TcpClient(p['kind'], peer.port)
+        try:
+            c.call('connect', 1.0)
+            c.call('bulk_write', b'x', 1.0)
+            real_time.sleep(0.2)
+            outcome(lambda: c.call('bulk_read', 10, 0.2))
+            for _ in range(2):
+                r = outcome(lambda: c.call('close'))
+                if r[0] != 'ok':
+                    out.append(fail(p, 'close must be idempotent, also after the peer reset the connection', 'ok', r))
+            peer2 = Peer(lambda conn, pe: (conn.sendall(b'again'), pe.event('done').wait(3)))
+            try:
+                if p['kind'] == 'sync':
+                    c.t._port = peer2.port
+                else:
+                    c.t._port = peer2.port
+                r = outcome(lambda: c.call('connect', 1.0))
+                r2 = outcome(lambda: c.call('bulk_read', 10, 1.0)) if r[0] == 'ok' else r
+                if r2 != ('ok', b'again'):
+                    out.append(fail(p, 'a closed transport can connect again after a peer reset', b'again', r2))
+            finally:
+                peer2.event('done').set()
+                peer2.close()
+        finally:
+            c.finish()
+            peer.close()
+        return out
     return out
 
 
@@ -602,6 +683,8 @@ class FakeUsb(object):
         self.rx = bytearray(b'0123456789' * 30)     # what the device has to say (raw mode)
         self.tx = bytearray()
         self.dev = dev                              # optional simulated adbd
+        self.unplugged = False
+        self.kernel_driver = False
 
     # usb1.USBDevice
     def open(self):
@@ -619,6 +702,8 @@ class FakeUsb(object):
         return [2, 3]
 
     def getSerialNumber(self):
+        if getattr(self, 'unplugged', False):
+            raise self.usb1.USBErrorNoDevice('device is gone')
         return 'SIM0001'
 
     def getDeviceAddress(self):
@@ -638,14 +723,17 @@ class FakeUsb(object):
 
     def kernelDriverActive(self, iface):
         self._call('kernelDriverActive', iface)
-        return False
+        return getattr(self, 'kernel_driver', False)
 
     def detachKernelDriver(self, iface):
         self._call('detachKernelDriver', iface)
+        self.kernel_driver = False
 
     def claimInterface(self, iface):
         self._call('claimInterface', iface)
         self._need_open('claimInterface')
+        if getattr(self, 'kernel_driver', False):
+            raise self.usb1.USBErrorBusy('a kernel driver is bound to the interface')      # documented libusb behaviour
         if iface != self.iface:
             self.problems.append('claimInterface(%r): the ADB interface of this device is number %r' % (iface, self.iface))
         self.claimed.add(iface)
@@ -703,6 +791,9 @@ def c20_params(budget):
     for k in range(0, 14):
         for cls in ('USBErrorIO', 'USBErrorNoDevice', 'USBErrorTimeout'):
             yield {'what': 'errors', 'k': k, 'cls': cls}
+    yield {'what': 'kernel-driver'}
+    for k in range(4, 9):
+        yield {'what': 'unplug', 'k': k}
     yield {'what': 'session', 'short': None}
     yield {'what': 'session', 'short': 64}
 
@@ -803,6 +894,40 @@ def c20_run(p):
         for pr in fu.problems:
             out.append(fail(p, 'libusb rule broken: ' + pr))
         return out
+    if p['what'] == 'kernel-driver':
+        fu = FakeUsb(usb1, 1, 0x81, 0x02)
+        fu.kernel_driver = True
+        t = Usb(fu, FakeSetting(1, [0x81, 0x02]))
+        r = outcome(lambda: t.connect(1.0))
+        if r[0] != 'ok' or 1 not in fu.claimed:
+            out.append(fail(p, 'connect must detach a bound kernel driver and then claim the ADB interface', 'claimed', (r, sorted(fu.claimed))))
+        for pr in fu.problems:
+            out.append(fail(p, 'libusb rule broken: ' + pr))
+        return out
+    if p['what'] == 'unplug':
+        # the device disappears: every backend call from index k on fails with USBErrorNoDevice, the serial number lookup included
+        fu = FakeUsb(usb1, 1, 0x81, 0x02)
+        t = Usb(fu, FakeSetting(1, [0x81, 0x02]))
+        t.connect(1.0)
+        real_call = fu._call
+
+        def call(what, *a):
+            if fu.calls >= p['k']:
+                fu.unplugged = True
+                fu.calls += 1
+                fu.log.append((what,) + a)
+                raise usb1.USBErrorNoDevice('unplugged at backend call %d (%s)' % (fu.calls - 1, what))
+            return real_call(what, *a)
+        fu._call = call
+        for name, f, E in (('bulk_write', lambda: t.bulk_write(b'abcdef', 1.0), 'UsbWriteFailedError'), ('bulk_read', lambda: t.bulk_read(6, 1.0), 'UsbReadFailedError'),
+                           ('bulk_write', lambda: t.bulk_write(b'gh', 1.0), 'UsbWriteFailedError'), ('bulk_read', lambda: t.bulk_read(3, 1.0), 'UsbReadFailedError')):
+            r = outcome(f)
+            if fu.unplugged and r[:2] != ('exc', E):
+                out.append(fail(p, 'a libusb error in %s must surface as %s (device unplugged)' % (name, E), E, r))
+        r = outcome(lambda: t.close())
+        if r[0] != 'ok':
+            out.append(fail(p, 'close swallows libusb errors (device unplugged)', 'ok', r))
+        return out
     if p['what'] == 'session':
         from sim.harness import Host
         push_src = bytes(range(256)) * 30
@@ -837,13 +962,13 @@ BOUNDS['C06'] = ('sync twin only: 2 threads each running shell() (3 WRTEs per st
                  'plus the sequential C01 / C19 scenario sets')
 
 
-def c06_one(preempt_at, first):
+def c06_one(preempt_at, first, lines=()):
     """One scheduled run.  -> (failures, steps, k1_hit)"""
     from sim import sched
     from sim.harness import Host
     payloads = {b'A': [b'<A:0 one>', b'<A:1 two>', b'<A:2 three>'], b'B': [b'<B:0 uno>', b'<B:1 dos>', b'<B:2 tres>']}
     dev = adbd.Adbd(shell=lambda d: payloads[d.split(b':', 1)[1][:1]], maxdata=4096)
-    s = sched.Scheduler(preempt_at=preempt_at, first=first)
+    s = sched.Scheduler(preempt_at=preempt_at, first=first, trace_lines_of=lines)
     sched.SchedLock.sched = None
     real_lock = L['adb_device'].Lock
     L['adb_device'].Lock = sched.SchedLock
@@ -885,6 +1010,20 @@ def c06_one(preempt_at, first):
 
 
 def c06_params(budget):
+    # stream-id allocation with every source line of _open a preemption point (finds races that the lock discipline should exclude)
+    base = c06_one((), 0, ('_open',))[1]
+    lim = min(base, 40)
+    for i in range(lim):
+        yield {'first': 0, 'preempt': [i], 'lines': ['_open']}
+    for i in range(lim if budget != 'quick' else 14):
+        for j in range(i + 1, lim if budget != 'quick' else 26):
+            yield {'first': 0, 'preempt': [i, j], 'lines': ['_open']}
+    # three preemptions among the first steps: one thread parked inside the allocation, the other parked with its stream open
+    n3 = 16 if budget == 'quick' else 24
+    for i in range(n3):
+        for j in range(i + 1, n3 + 8):
+            for k in range(j + 1, n3 + 16):
+                yield {'first': 0, 'preempt': [i, j, k], 'lines': ['_open']}
     for first in (0, 1):
         base = c06_one((), first)[1]
         yield {'first': first, 'preempt': []}
@@ -909,7 +1048,7 @@ K1_RUNS = [0]
 
 
 def c06_run(p):
-    fails, steps, k1 = c06_one(tuple(p['preempt']), p['first'])
+    fails, steps, k1 = c06_one(tuple(p['preempt']), p['first'], tuple(p.get('lines', ())))
     if k1:
         K1_RUNS[0] += 1           # the known defect K1 (a CLSE for a stream with nothing parked is discarded) struck in this schedule
         return []
